@@ -307,11 +307,63 @@ fn rebinding(w: &mut Worker) {
     }
 }
 
+/// Names are free of blanks, `=` and `}` - nothing else: a name may hold `$`, `%`, `{`, a backslash, a
+/// quote, even the two characters that open a reference. The name of a reference runs up to the first
+/// `}`; what it names is looked up as it stands.
+fn odd_names(w: &mut Worker) {
+    let mut rig = Rig::new();
+    let mut names: Vec<String> = vec![];
+    let chars: Vec<char> = wide_chars().into_iter().filter(|c| !c.is_whitespace() && *c != '=' && *c != '}').collect();
+    for c in &chars {
+        for n in [format!("a{}b", c), format!("{}x", c), format!("x{}", c), c.to_string()] {
+            names.push(n);
+        }
+    }
+    for two in ["${", "%{", "$$", "{{", "\\$", "\\%", "$%", "%$", "${{", "\\${"] {
+        for n in [two.to_string(), format!("d/{}f", two), format!("{}f", two), format!("d{}", two)] {
+            names.push(n);
+        }
+    }
+    names.sort();
+    names.dedup();
+    names.retain(|n| !["a", "b", "x", "f", "d", "d/"].contains(&n.as_str()));
+    for n in &names {
+        let mut env: HashMap<String, String> = HashMap::new();
+        for (k, v) in [("a", "A"), ("b", "B"), ("x", "X"), ("f", "F"), ("d", "D"), ("d/", "D/")] {
+            env.insert(k.to_string(), v.to_string());
+        }
+        env.insert(n.clone(), format!("value of the odd name w1 w2"));
+        let r = format!("${{{}}}", n);
+        let cases: Vec<(Vec<String>, Vec<String>)> = vec![
+            (vec![r.clone()], vec!["value of the odd name w1 w2".to_string()]),
+            (vec![format!("p{}q", r)], vec!["pvalue of the odd name w1 w2q".to_string()]),
+            (vec![format!("{}${{x}}", r)], vec!["value of the odd name w1 w2X".to_string()]),
+            (vec![format!("${{x}}{}", r), "z".to_string()], vec!["Xvalue of the odd name w1 w2".to_string(), "z".to_string()]),
+            (vec!["y".to_string(), format!("%{{{}}}", n), "z".to_string()], vec!["y", "value", "of", "the", "odd", "name", "w1", "w2", "z"].into_iter().map(String::from).collect()),
+        ];
+        for (args, exp) in cases {
+            if !w.take() {
+                continue;
+            }
+            let cj = json!({"written": args, "odd_name": n, "via": "run_instruction"});
+            w.begin(|| cj.clone());
+            let got = rig.bind(&args, &env);
+            w.add_transitions(1);
+            match got {
+                Err(e) => w.fail(if e.starts_with("panic") { "panic" } else { "odd-name:bind-error" }, &format!("{:?}: {}", args, e), cj),
+                Ok(g) if g == exp => w.pass(true, hash64(&("odd-name", g.len()))),
+                Ok(g) => w.fail("odd-name:differs", &format!("written {:?} with the variable {:?} defined: received {:?}, expected {:?}", args, n, g, exp), cj),
+            }
+        }
+    }
+}
+
 pub fn worker(w: &mut Worker) {
     let tier = w.tier;
     std::env::set_var("C02_ENV_ONLY", "leaked from the environment");
     scale(w);
     rebinding(w);
+    odd_names(w);
     let mut rig = Rig::new();
     let mut templates: Vec<Tpl> = vec![];
     for t in Strings::new(&PIECES[..], 1, 3) {
@@ -528,7 +580,7 @@ pub fn crash_sig(_case: &Value, kind: &str) -> String {
     kind.to_string()
 }
 
-pub const RULE: &str = "every template of 1..3 pieces from {a, 'b c', e-acute, ${v}, ${w}, ${u} (undefined), ${a.b}, ${s::e1} (name with '::', a digit and a non-ASCII letter), \\${v}} and the whole-argument forms %{v} %{w} %{u}, in three argument positions (alone, first of two, last of three after a spread), x every value of v (undefined, every string up to the length bound over {a SP \" \\ # $ { } % LF = e-acute TAB CR NBSP}, 9 special values such as '${w}' and '  ') x 8 values of w (only where the argument list mentions them); bound by runner::run_instruction and observed by a capture command; every template also under the empty environment (no variable defined at all); a second family writes the same templates as script text (plain and quoted) and runs them through run_script. Oracle: one-pass reference substitution; spread = space-separated non-empty words. Non-trivial: the argument list mentions v or w. states = distinct (received count, position, kind) classes; transitions = real bindings. Scale cases: a value of 300/70000 (thorough 1000003) characters made of ${v}, %{w}, backslash, '#' and quote text bound alone, embedded and as an array item (must arrive whole and uninterpreted); 300/3000 (thorough 30000) words spread by %{..} and as many arguments written out on one line. Re-binding family: the templates %{w} ${w} bound twice in one run with the variable changed in between by a command writing the variable table directly, by an assignment, by set_by_name, as a for/in loop variable, as a function argument, or removed (6 x 6 values): each binding shows the value of its moment Punctuation values: every ASCII punctuation character and the low-byte look-alikes of blank, quote, #, backslash, $, %, braces and apostrophe, leading / trailing / wrapping the words of the value (6 shapes each) through every template: a value is data, a spread splits it at blanks only";
+pub const RULE: &str = "every template of 1..3 pieces from {a, 'b c', e-acute, ${v}, ${w}, ${u} (undefined), ${a.b}, ${s::e1} (name with '::', a digit and a non-ASCII letter), \\${v}} and the whole-argument forms %{v} %{w} %{u}, in three argument positions (alone, first of two, last of three after a spread), x every value of v (undefined, every string up to the length bound over {a SP \" \\ # $ { } % LF = e-acute TAB CR NBSP}, 9 special values such as '${w}' and '  ') x 8 values of w (only where the argument list mentions them); bound by runner::run_instruction and observed by a capture command; every template also under the empty environment (no variable defined at all); a second family writes the same templates as script text (plain and quoted) and runs them through run_script. Oracle: one-pass reference substitution; spread = space-separated non-empty words. Non-trivial: the argument list mentions v or w. states = distinct (received count, position, kind) classes; transitions = real bindings. Scale cases: a value of 300/70000 (thorough 1000003) characters made of ${v}, %{w}, backslash, '#' and quote text bound alone, embedded and as an array item (must arrive whole and uninterpreted); 300/3000 (thorough 30000) words spread by %{..} and as many arguments written out on one line. Re-binding family: the templates %{w} ${w} bound twice in one run with the variable changed in between by a command writing the variable table directly, by an assignment, by set_by_name, as a for/in loop variable, as a function argument, or removed (6 x 6 values): each binding shows the value of its moment Punctuation values: every ASCII punctuation character and the low-byte look-alikes of blank, quote, #, backslash, $, %, braces and apostrophe, leading / trailing / wrapping the words of the value (6 shapes each) through every template: a value is data, a spread splits it at blanks only Odd names: every character of the wide alphabet that a name may hold (all but white space, = and }) inside, in front of and behind a name, and the two-character sequences ${ %{ $$ {{ \\$ \\% inside names, through five templates (alone, embedded, next to another reference on either side, as a spread): the name runs to the first } and is looked up as it stands";
 pub const ASSUMPTIONS: &[&str] = &["spread values containing a double quote or '#' are only checked for 'no panic' (their grouping is pinned by the repository's own tests, not by the statement)", "arguments that mix text with %{..} are outside the property's template domain"];
 pub const EXHAUSTIVE: bool = true;
 pub const WALL_CAP_S: (u64, u64) = (50, 1500);
